@@ -152,7 +152,19 @@ fn draw_flows(rng: &mut Rng, n: usize, errors: bool) -> Vec<FlowP> {
             let dns = rng.chance(1, 4);
             let port = if dns { 53 } else { 4000 + i as u16 };
             let (src, dst) = if v6 {
-                (format!("[fd00::{:x}]:{}", 10 + i, 50_000 + i), format!("[2606:4700::{:x}]:{}", 0x1111 + i, port))
+                // shapes of IPv6 address that 6.3 / 6.4 must carry as their 16 octets: ordinary,
+                // IPv4-mapped (::ffff:a.b.c.d; not an IPv4 address on this wire), full-width
+                let s = match rng.below(4) {
+                    0 => format!("[::ffff:10.8.0.{}]:{}", 2 + i, 50_000 + i),
+                    1 => format!("[fd00:{:x}:{:x}:{:x}:{:x}:{:x}:{:x}:{:x}]:{}", rng.below(0xffff) + 1, rng.below(0x10000), rng.below(0x10000), rng.below(0x10000), rng.below(0x10000), rng.below(0x10000), 10 + i, 50_000 + i),
+                    _ => format!("[fd00::{:x}]:{}", 10 + i, 50_000 + i),
+                };
+                let d = match rng.below(4) {
+                    0 => format!("[::ffff:93.184.218.{}]:{}", 1 + i, port),
+                    1 => format!("[2606:4700:{:x}:{:x}:{:x}:{:x}:{:x}:{:x}]:{}", rng.below(0x10000), rng.below(0x10000), rng.below(0x10000), rng.below(0x10000), rng.below(0x10000), 0x1111 + i, port),
+                    _ => format!("[2606:4700::{:x}]:{}", 0x1111 + i, port),
+                };
+                (s, d)
             } else {
                 (format!("10.8.0.{}:{}", 2 + i, 50_000 + i), format!("93.184.218.{}:{}", 1 + i, port))
             };
